@@ -510,9 +510,13 @@ func runGROWSIBS(c *Ctx) {
 	}
 	// relation under which the test answers true
 	testRel := map[string]ssa.Instruction{}
+	tei := ir.ErrorResultIndex(test.Signature)
 	for _, r := range ir.Returns(test) {
 		if v, isC := ir.ConstBool(r.Results[0]); !isC || !v {
 			continue
+		}
+		if tei >= 0 && !ir.IsNilConst(r.Results[tei]) {
+			continue // the answer next to an error is not looked at
 		}
 		found := false
 		for _, f := range ir.FactsAt(r.Block()) {
@@ -625,6 +629,52 @@ func runGROWSHRINK(c *Ctx) {
 					}
 				}
 			}
+			// the loop test may be a predicate method (`for m.needsShrink()`): an outcome of a size test inside it
+			// that leads straight to `return true`
+			for _, f := range ir.FactsAt(tcall.Block()) {
+				hc, ok := f.Cond.(*ssa.Call)
+				if !ok || !f.Truth {
+					continue
+				}
+				h := ir.Callee(hc.Call)
+				if h == nil || h.Blocks == nil || !isOwn(c.P, h) {
+					continue
+				}
+				for _, b := range h.Blocks {
+					if len(b.Instrs) == 0 {
+						continue
+					}
+					iff, ok := b.Instrs[len(b.Instrs)-1].(*ssa.If)
+					if !ok {
+						continue
+					}
+					for i, sb := range b.Succs {
+						prev := b
+						for n := 0; len(sb.Succs) == 1 && n < 8; n++ {
+							prev, sb = sb, sb.Succs[0]
+						}
+						if len(sb.Instrs) == 0 {
+							continue
+						}
+						r, isRet := sb.Instrs[len(sb.Instrs)-1].(*ssa.Return)
+						if !isRet || len(r.Results) != 1 {
+							continue
+						}
+						rv := r.Results[0]
+						if phi, isPhi := rv.(*ssa.Phi); isPhi && phi.Block() == sb {
+							for pi, p := range sb.Preds {
+								if p == prev {
+									rv = phi.Edges[pi]
+								}
+							}
+						}
+						if v, isC := ir.ConstBool(rv); isC && v {
+							// the condition is on the helper's receiver fields: same Mast
+							facts = append(facts, ir.Fact{Cond: iff.Cond, Truth: i == 0, From: b})
+						}
+					}
+				}
+			}
 		}
 		for _, f := range facts {
 			bin, ok := f.Cond.(*ssa.BinOp)
@@ -680,8 +730,17 @@ func runGROWSHRINK(c *Ctx) {
 				c.Undecided(fn, P.InstrPos(tcall), "size update", "cannot relate the size test to the update of Mast.size in "+ir.FuncName(fn))
 				return nil, false
 			}
-			after := ir.InstrReaches(upd, ld)
-			before := ir.InstrReaches(ld, upd)
+			var at ssa.Instruction = ld
+			if ld.Parent() != fn {
+				// the test sits in a predicate helper: what matters is when the helper is called
+				for _, ci := range CallsOf(fn) {
+					if ir.Callee(ci.Common()) == ld.Parent() {
+						at = ci
+					}
+				}
+			}
+			after := ir.InstrReaches(upd, at)
+			before := ir.InstrReaches(at, upd)
 			if after == before {
 				c.Undecided(fn, P.InstrPos(ld), "size test both before and after the size update", "the test of Mast.size can run on either side of the update")
 				return nil, false
@@ -784,6 +843,9 @@ func runGROWSHRINK(c *Ctx) {
 								if _, f, ok := nodeSliceRoot(y.Call.Args[0]); ok && f == "Key" {
 									return true, h.Name() + " (measures node.Key)"
 								}
+							}
+							if ok, how := keyTest(y, d+1); ok {
+								return true, h.Name() + " → " + how
 							}
 						case *ssa.Range:
 							if _, f, ok := nodeSliceRoot(y.X); ok && f == "Key" {
